@@ -604,3 +604,301 @@ Proof.
     apply bind_notok_l. now apply tuple_length_rejected. }
   destruct P; [|contradiction]. cbn [at_p]. apply (proj1 (at_all _ _ Re Rs)).
 Qed.
+
+(* ------------------------------------------------------------------ field access, case *)
+
+Section AccessRules.
+  Variable kinds : PositiveMap.t varkind.
+  Variable g : nat.
+  Notation G := (gfix g).
+  Notation afix := (afix kinds G).
+  Let PG : gpres G := gfix_pres g.
+  Let PA f : apres (afix f) := afix_pres kinds G PG f.
+
+  Variable v : N.
+  Variable K : list string.
+
+  Definition blob_head (s : st) (t : tyid) : Prop :=
+    exists n sp f a, head s t = Some (HBlob n sp f a) /\ keys_are f K.
+  Definition enum_head (s : st) (t : tyid) : Prop :=
+    exists n sp f a, head s t = Some (HEnum n sp f a) /\ keys_are f K.
+
+  Lemma blob_head_ext s s' t : ext s s' -> blob_head s t -> blob_head s' t.
+  Proof.
+    intros (_ & _ & _ & E4) (n & sp & f & a & H & HK). destruct (E4 _ _ H eq_refl) as (h' & H' & S).
+    destruct (shape_blob_keys _ _ _ _ _ _ S HK) as (n' & sp' & f' & a' & -> & HK'). do 4 eexists. eauto.
+  Qed.
+
+  Lemma enum_head_ext s s' t : ext s s' -> enum_head s t -> enum_head s' t.
+  Proof.
+    intros (_ & _ & _ & E4) (n & sp & f & a & H & HK). destruct (E4 _ _ H eq_refl) as (h' & H' & S).
+    destruct (shape_enum_keys _ _ _ _ _ _ S HK) as (n' & sp' & f' & a' & -> & HK'). do 4 eexists. eauto.
+  Qed.
+
+  (* an instantiation of the declared blob, when accepted, has a blob with the declared fields as its value *)
+  Lemma blob_inst_yields fields self sp f ctx s r s' :
+    Jb v K s -> r_expr (afix f) (EBlob v fields self sp) ctx s = Ok (r, s') ->
+    wf s' /\ ext s s' /\ blob_head s' (snd r).
+  Proof.
+    intros [W D] H. destruct (ap_expr _ (PA f) _ _ _ _ _ W H) as [W' E']. split; [assumption|]. split; [assumption|].
+    destruct D as (n & sp1 & bf & ba & Hd & HK).
+    destruct f as [|f]; [discriminate|]. cbn [Tc.afix astep r_expr] in H. unfold expr_body in H.
+    apply bind_inv in H as ([er ex] & s1 & H1 & H). cbv beta iota in H1.
+    apply bind_inv in H1 as (bt & s0 & H0 & H1). apply var_ty_inv in H0 as [-> ->].
+    apply bind_inv in H1 as (blob_ty & s2 & Hc & H1).
+    destruct (copy_shape _ _ _ _ _ W Hc) as (W2 & _ & (h & h' & Hh & Hh' & [Sh _])).
+    rewrite Hd in Hh. injection Hh as <-.
+    destruct (shape_blob_keys _ _ _ _ _ _ Sh HK) as (n' & sp' & f' & a' & -> & HK').
+    rewrite (bind_ok _ _ _ _ _ (find_type_ok _ _ _ Hh')) in H1.
+    apply bind_inv_pres in H1 as (given & s3 & _ & W3 & E3 & H1); [|prs|assumption].
+    cbv zeta in H1.
+    match type of H1 with (match ?l with _ => _ end) _ = _ => destruct l end; [|discriminate].
+    apply bind_inv_pres in H1 as (gb & s4 & _ & W4 & E4 & H1); [|prs|assumption].
+    apply bind_inv_pres in H1 as (ret0 & s5 & _ & W5 & E5 & H1); [|prs|assumption].
+    apply bind_inv_pres in H1 as (u6 & s6 & _ & W6 & E6 & H1); [|pose proof (PA f); prs|assumption].
+    apply bind_inv in H1 as (u & s7 & Hu & H1). injection H1 as <- <- <-.
+    destruct (unify_result_head _ _ _ _ _ _ _ W6 Hu) as (W7 & E7 & Hru & Heq).
+    assert (B7 : blob_head s7 blob_ty).
+    { apply (blob_head_ext s2); [|do 4 eexists; eauto].
+      eapply ext_trans; [exact E3|]. eapply ext_trans; [exact E4|]. eapply ext_trans; [exact E5|].
+      eapply ext_trans; [exact E6|exact E7]. }
+    assert (Bu : blob_head s7 u).
+    { destruct B7 as (n2 & sp2 & f2 & a2 & Hb & HK2). exists n2, sp2, f2, a2. split; [|assumption]. rewrite Hru, Heq. exact Hb. }
+    destruct Bu as (n2 & sp2 & f2 & a2 & Hb & HK2).
+    rewrite (bind_ok _ _ _ _ _ (find_type_ok _ _ _ Hb)) in H. injection H as <- <-.
+    exists n2, sp2, f2, a2. auto.
+  Qed.
+
+  (* accessing a field the blob does not have *)
+  Lemma absent_field_rejected value field sp f ctx s :
+    wf s ->
+    (forall f' ctx' s0 r s1, ext s s0 -> wf s0 -> r_expr (afix f') value ctx' s0 = Ok (r, s1) -> blob_head s1 (snd r)) ->
+    ~ In field K ->
+    notok (r_expr (afix f) (EBlobAccess value field sp) ctx s).
+  Proof.
+    intros W Hv Nk. destruct f as [|f]; [apply notok_fuel|].
+    cbn [Tc.afix astep r_expr]. unfold expr_body. apply bind_notok_l. cbv beta iota.
+    apply bind_cases; [apply (ap_expr _ (PA _))|assumption|]. intros [oret outer] s1 H1 W1 E1.
+    pose proof (Hv _ _ _ _ _ (ext_refl s) W H1) as B1. cbn [snd] in B1.
+    apply bind_cases; [apply pres_push|assumption|]. intros ft s2 H2 W2 E2.
+    apply bind_cases; [apply pres_add_constraint|assumption|]. intros u3 s3 H3 W3 E3.
+    destruct (add_constraint_spec _ _ _ _ _ W2 H3) as (_ & _ & _ & _ & C3 & _).
+    apply bind_notok_l. apply (check_rejects g sp outer _ s3 W3 C3).
+    intros g' s' W' E'. cbn [check_one].
+    assert (B' : blob_head s' outer).
+    { apply (blob_head_ext s1); [|assumption]. eapply ext_trans; [exact E2|]. eapply ext_trans; [exact E3|exact E']. }
+    destruct B' as (n2 & sp2 & f2 & a2 & Hb & HK2).
+    rewrite (bind_ok _ _ _ _ _ (find_type_ok _ _ _ Hb)).
+    destruct (flookup field f2) as [[? ?]|] eqn:Fl; [|apply notok_fail].
+    exfalso. apply Nk, (HK2 field), fmem_In_keys. unfold fmem. rewrite Fl. reflexivity.
+  Qed.
+
+  Lemma absent_field_of_instance_rejected fields self isp field sp f ctx s :
+    Jb v K s -> ~ In field K ->
+    notok (r_expr (afix f) (EBlobAccess (EBlob v fields self isp) field sp) ctx s).
+  Proof.
+    intros [W D] Nk. apply absent_field_rejected; [assumption| |assumption].
+    intros f' ctx' s0 r s1 E0 W0 H.
+    assert (J0 : Jb v K s0) by (split; [exact W0|exact (decl_blob_ext v K s s0 W E0 D)]).
+    destruct (blob_inst_yields _ _ _ _ _ _ _ _ J0 H) as (_ & _ & B). exact B.
+  Qed.
+End AccessRules.
+
+Section CaseRules.
+  Variable kinds : PositiveMap.t varkind.
+  Variable g : nat.
+  Notation G := (gfix g).
+  Notation afix := (afix kinds G).
+  Let PG : gpres G := gfix_pres g.
+  Let PA f : apres (afix f) := afix_pres kinds G PG f.
+
+  Variable ev : N.
+  Variable K : list string.
+
+  (* a constructed variant of the declared enum, when accepted, has the enum with the declared variants as value *)
+  Lemma variant_yields variant value vsp f ctx s r s' :
+    Je ev K s -> r_expr (afix f) (EVariant ev variant value vsp) ctx s = Ok (r, s') ->
+    wf s' /\ ext s s' /\ enum_head K s' (snd r).
+  Proof.
+    intros [W D] H. destruct (ap_expr _ (PA f) _ _ _ _ _ W H) as [W' E']. split; [assumption|]. split; [assumption|].
+    destruct f as [|f]; [discriminate|]. cbn [Tc.afix astep r_expr] in H. unfold expr_body in H.
+    apply bind_inv in H as ([er ex] & s1 & H1 & H). cbv beta iota in H1.
+    apply bind_inv_pres in H1 as ([vret pv] & s2 & _ & W2 & E2 & H1); [|pose proof (PA f); prs|assumption].
+    pose proof (decl_enum_ext _ _ _ _ W E2 D) as (n & sp1 & vf & va & Hd & HK).
+    apply bind_inv in H1 as (et & s3 & H3 & H1). apply var_ty_inv in H3 as [-> ->].
+    apply bind_inv in H1 as (enum_ty & s4 & Hc & H1).
+    destruct (copy_shape _ _ _ _ _ W2 Hc) as (W4 & _ & (h & h' & Hh & Hh' & [Sh _])).
+    rewrite Hd in Hh. injection Hh as <-.
+    destruct (shape_enum_keys _ _ _ _ _ _ Sh HK) as (n' & sp' & f' & a' & -> & HK').
+    apply bind_inv_pres in H1 as (u5 & s5 & _ & W5 & E5 & H1); [|prs|assumption].
+    apply bind_inv_pres in H1 as (u6 & s6 & _ & W6 & E6 & H1); [|prs|assumption].
+    injection H1 as <- <- <-.
+    assert (B6 : enum_head K s6 enum_ty).
+    { apply (enum_head_ext K s4); [eapply ext_trans; eassumption|]. do 4 eexists; eauto. }
+    destruct B6 as (n2 & sp2 & f2 & a2 & Hb & HK2).
+    rewrite (bind_ok _ _ _ _ _ (find_type_ok _ _ _ Hb)) in H. injection H as <- <-.
+    exists n2, sp2, f2, a2. auto.
+  Qed.
+
+  Definition branch_pattern (b : casebranch) : string := match b with CaseBranch p _ _ _ _ => p end.
+
+  (* matching a variant the enum does not have *)
+  Lemma case_unknown_pattern_rejected to_match pre pat psp var body bsp post fall sp f ctx s :
+    wf s ->
+    (forall f' ctx' s0 r s1, ext s s0 -> wf s0 -> r_expr (afix f') to_match ctx' s0 = Ok (r, s1) -> enum_head K s1 (snd r)) ->
+    ~ In pat K ->
+    notok (r_expr (afix f) (ECase to_match (pre ++ CaseBranch pat psp var body bsp :: post) fall sp) ctx s).
+  Proof.
+    intros W Hv Nk. destruct f as [|f]; [apply notok_fuel|].
+    cbn [Tc.afix astep r_expr]. unfold expr_body. apply bind_notok_l. cbv beta iota.
+    apply bind_cases; [apply (ap_expr _ (PA _))|assumption|]. intros [ret0 m] s1 H1 W1 E1.
+    pose proof (Hv _ _ _ _ _ (ext_refl s) W H1) as B1. cbn [snd] in B1.
+    apply bind_cases; [apply pres_add_constraint|assumption|]. intros u2 s2 H2 W2 E2.
+    apply bind_cases; [apply (gp_check G PG)|assumption|]. intros u3 s3 H3 W3 E3.
+    apply bind_notok_l.
+    set (J := fun s0 => wf s0 /\ enum_head K s0 m).
+    assert (HJ : pres_closed J).
+    { apply inv_pres_closed. intros s0 s0' _ E0. now apply enum_head_ext. }
+    apply (foldM_notok_j J HJ).
+    - intros [[? ?] ?] br. pose proof (PA f). eapply pres_case_branch; eassumption.
+    - intros [[r0 v0] names] s4 [W4 B4]. unfold case_branch.
+      apply bind_cases; [destruct var; prs|assumption|]. intros c s5 H5 W5 E5.
+      apply bind_cases; [apply pres_add_constraint|assumption|]. intros u6 s6 H6 W6 E6.
+      destruct (add_constraint_spec _ _ _ _ _ W5 H6) as (_ & _ & _ & _ & C6 & _).
+      apply bind_notok_l. apply (check_rejects g sp m _ s6 W6 C6).
+      intros g' s' W' E'. cbn [check_one].
+      assert (B' : enum_head K s' m).
+      { apply (enum_head_ext K s4); [|assumption]. eapply ext_trans; [exact E5|]. eapply ext_trans; [exact E6|exact E']. }
+      destruct B' as (n2 & sp2 & f2 & a2 & Hb & HK2).
+      rewrite (bind_ok _ _ _ _ _ (find_type_ok _ _ _ Hb)).
+      destruct (flookup pat f2) as [[? ?]|] eqn:Fl.
+      + exfalso. apply Nk, (HK2 pat), fmem_In_keys. unfold fmem. rewrite Fl. reflexivity.
+      + destruct c; apply notok_fail.
+    - split; [assumption|]. apply (enum_head_ext K s1); [eapply ext_trans; eassumption|assumption].
+  Qed.
+
+  (* the names collected by the branches *)
+  Lemma smem_sinsert k x l : smem k (sinsert x l) = String.eqb k x || smem k l.
+  Proof.
+    unfold smem. induction l as [|y l IH]; cbn [sinsert existsb]; [reflexivity|].
+    destruct (String.compare x y) eqn:E; cbn [existsb].
+    - apply String.compare_eq_iff in E. subst y. destruct (String.eqb k x); reflexivity.
+    - reflexivity.
+    - rewrite IH. destruct (String.eqb k y), (String.eqb k x); reflexivity.
+  Qed.
+
+  Lemma case_fold_names f sp ctx m : forall branches acc s r s',
+    wf s -> foldM (case_branch kinds G (afix f) sp ctx m) branches acc s = Ok (r, s') ->
+    wf s' /\ ext s s' /\
+    (forall k, smem k (snd r) = true <-> smem k (snd acc) = true \/ In k (map branch_pattern branches)).
+  Proof.
+    induction branches as [|br branches IH]; intros acc s r s' W H; cbn [foldM] in H.
+    - injection H as <- <-. split; [assumption|]. split; [apply ext_refl|]. intros k. cbn [map In]. tauto.
+    - apply bind_inv in H as (acc1 & s1 & H1 & H).
+      assert (P1 : pres (case_branch kinds G (afix f) sp ctx m acc br)) by (eapply pres_case_branch; [exact PG|apply PA]).
+      destruct (P1 _ _ _ W H1) as [W1 E1].
+      destruct (IH _ _ _ _ W1 H) as (W' & E' & Hn). split; [assumption|]. split; [eapply ext_trans; eassumption|].
+      assert (Hacc : snd acc1 = sinsert (branch_pattern br) (snd acc)).
+      { unfold case_branch in H1. destruct acc as [[r0 v0] names0]. destruct br as [pat psp var body bsp].
+        apply bind_inv in H1 as (c & s2 & _ & H1). apply bind_inv in H1 as (u3 & s3 & _ & H1).
+        apply bind_inv in H1 as (u4 & s4 & _ & H1). apply bind_inv in H1 as ([bret bval] & s5 & _ & H1).
+        apply bind_inv in H1 as (v' & s6 & _ & H1). apply bind_inv in H1 as (r' & s7 & _ & H1).
+        injection H1 as <- _. reflexivity. }
+      intros k. rewrite Hn, Hacc, smem_sinsert. cbn [map In]. rewrite orb_true_iff, String.eqb_eq. intuition congruence.
+  Qed.
+
+  (* a `case` without `else` that does not list every variant *)
+  Lemma case_not_total_rejected to_match branches sp f ctx s k0 :
+    wf s ->
+    (forall f' ctx' s0 r s1, ext s s0 -> wf s0 -> r_expr (afix f') to_match ctx' s0 = Ok (r, s1) -> enum_head K s1 (snd r)) ->
+    In k0 K -> ~ In k0 (map branch_pattern branches) ->
+    notok (r_expr (afix f) (ECase to_match branches None sp) ctx s).
+  Proof.
+    intros W Hv Hk Nk. destruct f as [|f]; [apply notok_fuel|].
+    cbn [Tc.afix astep r_expr]. unfold expr_body. apply bind_notok_l. cbv beta iota.
+    apply bind_cases; [apply (ap_expr _ (PA _))|assumption|]. intros [ret0 m] s1 H1 W1 E1.
+    pose proof (Hv _ _ _ _ _ (ext_refl s) W H1) as B1. cbn [snd] in B1.
+    apply bind_cases; [apply pres_add_constraint|assumption|]. intros u2 s2 H2 W2 E2.
+    apply bind_cases; [apply (gp_check G PG)|assumption|]. intros u3 s3 H3 W3 E3.
+    apply bind_cases; [apply pres_foldM; intros [[? ?] ?] ?; eapply pres_case_branch; [exact PG|apply PA]|assumption|].
+    intros [[r4 v4] names] s4 H4 W4 E4.
+    destruct (case_fold_names _ _ _ _ _ _ _ _ _ W3 H4) as (_ & _ & Hn). cbn [snd] in Hn.
+    apply bind_notok_l.
+    apply bind_cases; [apply pres_add_constraint|assumption|]. intros u5 s5 H5 W5 E5.
+    destruct (add_constraint_spec _ _ _ _ _ W4 H5) as (_ & _ & _ & _ & C5 & _).
+    apply bind_notok_l. apply (check_rejects g sp m _ s5 W5 C5).
+    intros g' s' W' E'. cbn [check_one].
+    assert (B' : enum_head K s' m).
+    { apply (enum_head_ext K s1); [|assumption]. eapply ext_trans; [exact E2|]. eapply ext_trans; [exact E3|].
+      eapply ext_trans; [exact E4|]. eapply ext_trans; [exact E5|exact E']. }
+    destruct B' as (n2 & sp2 & f2 & a2 & Hb & HK2).
+    rewrite (bind_ok _ _ _ _ _ (find_type_ok _ _ _ Hb)).
+    destruct (existsb (fun v0 => negb (fmem v0 f2)) names); [apply notok_fail|].
+    assert (X : existsb (fun kv : string * (span * tyid) => negb (smem (fst kv) names)) f2 = true).
+    { apply existsb_exists. apply (HK2 k0) in Hk. unfold keys in Hk. apply in_map_iff in Hk as ([k1 x] & Ek & Hin).
+      cbn [fst] in Ek. subst k1. exists (k0, x). split; [assumption|]. cbn [fst].
+      destruct (smem k0 names) eqn:Sm; [|reflexivity]. apply Hn in Sm. cbn [smem existsb] in Sm.
+      destruct Sm as [Sm|Sm]; [discriminate|contradiction]. }
+    rewrite X. apply notok_fail.
+  Qed.
+End CaseRules.
+
+(* ------------------------------------------------------------------ whole programs, continued *)
+
+(* accessing a field the blob does not have (on a freshly instantiated blob) *)
+Theorem absent_field_access_rejected name v sp tvars bfields fields self isp field asp :
+  ~ In field (map fst bfields) ->
+  forall pre mid post dname dvar dkind dty (C : ectx) dsp sp0 fuel vars,
+    let e := EBlobAccess (EBlob v fields self isp) field asp in
+    typecheck fuel (mkResolved vars
+      (pre ++ SBlob name v sp tvars bfields false :: mid ++
+       SDefinition dname dvar dkind dty (plug_e e (SStatementExpression e sp0) C) dsp :: post))
+    <> Ok tt.
+Proof.
+  intros Nk pre mid post dname dvar dkind dty C dsp sp0 fuel vars e.
+  apply (rejected_after_decl (decl_blob v (map fst bfields))).
+  - intros s s' W E. now apply decl_blob_ext.
+  - intros kinds g R s u s' PR W H. exact (blob_established kinds g R PR _ _ _ _ _ false _ _ _ _ W H).
+  - intros kinds g f ctx s J. now apply (absent_field_of_instance_rejected kinds g v (map fst bfields)).
+Qed.
+
+(* matching a variant that does not exist; a `case` without `else` that misses a variant
+   (the scrutinee: a freshly constructed variant of the declared enum) *)
+Theorem case_unknown_variant_rejected name ev sp tvars variants var0 value vsp pre0 pat psp bvar body bsp post0 fall csp :
+  ~ In pat (map fst variants) ->
+  forall pre mid post dname dvar dkind dty (C : ectx) dsp sp0 fuel vars,
+    let e := ECase (EVariant ev var0 value vsp) (pre0 ++ CaseBranch pat psp bvar body bsp :: post0) fall csp in
+    typecheck fuel (mkResolved vars
+      (pre ++ SEnum name ev sp tvars variants :: mid ++
+       SDefinition dname dvar dkind dty (plug_e e (SStatementExpression e sp0) C) dsp :: post))
+    <> Ok tt.
+Proof.
+  intros Nk pre mid post dname dvar dkind dty C dsp sp0 fuel vars e.
+  apply (rejected_after_decl (decl_enum ev (map fst variants))).
+  - intros s s' W E. now apply decl_enum_ext.
+  - intros kinds g R s u s' PR W H. exact (enum_established kinds g R PR _ _ _ _ _ _ _ _ _ W H).
+  - intros kinds g f ctx s [W D]. apply (case_unknown_pattern_rejected kinds g (map fst variants)); [assumption| |assumption].
+    intros f' ctx' s0 r s1 E0 W0 H.
+    assert (J0 : Je ev (map fst variants) s0) by (split; [exact W0|exact (decl_enum_ext _ _ s s0 W E0 D)]).
+    destruct (variant_yields kinds g ev _ _ _ _ _ _ _ _ _ J0 H) as (_ & _ & B). exact B.
+Qed.
+
+Theorem case_not_total_rejected_prog name ev sp tvars variants var0 value vsp branches csp k0 :
+  In k0 (map fst variants) -> ~ In k0 (map branch_pattern branches) ->
+  forall pre mid post dname dvar dkind dty (C : ectx) dsp sp0 fuel vars,
+    let e := ECase (EVariant ev var0 value vsp) branches None csp in
+    typecheck fuel (mkResolved vars
+      (pre ++ SEnum name ev sp tvars variants :: mid ++
+       SDefinition dname dvar dkind dty (plug_e e (SStatementExpression e sp0) C) dsp :: post))
+    <> Ok tt.
+Proof.
+  intros Hk Nk pre mid post dname dvar dkind dty C dsp sp0 fuel vars e.
+  apply (rejected_after_decl (decl_enum ev (map fst variants))).
+  - intros s s' W E. now apply decl_enum_ext.
+  - intros kinds g R s u s' PR W H. exact (enum_established kinds g R PR _ _ _ _ _ _ _ _ _ W H).
+  - intros kinds g f ctx s [W D].
+    apply (case_not_total_rejected kinds g (map fst variants) _ _ _ _ _ _ k0); try assumption.
+    intros f' ctx' s0 r s1 E0 W0 H.
+    assert (J0 : Je ev (map fst variants) s0) by (split; [exact W0|exact (decl_enum_ext _ _ s s0 W E0 D)]).
+    destruct (variant_yields kinds g ev _ _ _ _ _ _ _ _ _ J0 H) as (_ & _ & B). exact B.
+Qed.
